@@ -326,9 +326,47 @@ fn judge_cli(acc: &mut Acc, src: &str, origin: &str) {
     let _ = std::fs::create_dir_all(&d);
     let _ = std::fs::write(d.join("p.sc"), src);
     for (cmd, dir) in [("linearize", "linearized"), ("shrink", "shrunk"), ("focus", "focused"), ("compile", "compiled")] {
-        let o = Command::new(&bin).current_dir(&d).env("PATH", format!("{}:/usr/bin:/bin", stub.display())).args([cmd, "p.sc"]).output();
-        if o.is_err() {
-            continue;
+        let o = Command::new(&bin).current_dir(&d).env("PATH", format!("{}:/usr/bin:/bin", stub.display())).env_remove("COLUMNS").env_remove("LINES").args([cmd, "p.sc"]).output();
+        let Ok(o) = o else { continue };
+        // what the command prints must not depend on the size of the output device: a narrow
+        // COLUMNS/LINES in the environment, and a narrow pseudo terminal as standard output
+        let narrow = Command::new(&bin).current_dir(&d).env("PATH", format!("{}:/usr/bin:/bin", stub.display())).env("COLUMNS", "37").env("LINES", "5").args([cmd, "p.sc"]).output();
+        if let Ok(n) = narrow {
+            acc.count("cli_stdout_environments_compared");
+            if n.stdout != o.stdout {
+                acc.violation(
+                    format!("C17:cli-stdout-env:{dir}"),
+                    format!("scc {cmd} prints a different {dir} program when COLUMNS=37 LINES=5 are in the environment: {}", first_diff(&String::from_utf8_lossy(&o.stdout), &String::from_utf8_lossy(&n.stdout))),
+                    J::obj().with("kind", J::s("determinism-cli")).with("src", J::s(src)).with("origin", J::s(origin)).with("file", J::s(format!("stdout of scc {cmd}"))),
+                );
+            }
+        }
+        if Path::new("/usr/bin/script").exists() {
+            let line = format!("stty cols 43 rows 7; exec '{}' {cmd} p.sc", bin.display());
+            let pty = Command::new("/usr/bin/script")
+                .current_dir(&d)
+                .env("PATH", format!("{}:/usr/bin:/bin", stub.display()))
+                .env_remove("COLUMNS")
+                .env_remove("LINES")
+                .args(["-qec", &line, "/dev/null"])
+                .stdin(std::process::Stdio::null())
+                .output();
+            match pty {
+                Ok(t) if t.status.success() && !t.stdout.is_empty() => {
+                    // the terminal turns every newline into carriage return + newline
+                    let got = String::from_utf8_lossy(&t.stdout).replace("\r\n", "\n");
+                    let want = String::from_utf8_lossy(&o.stdout).to_string();
+                    acc.count("cli_stdout_pseudo_terminals_compared");
+                    if got != want {
+                        acc.violation(
+                            format!("C17:cli-stdout-pty:{dir}"),
+                            format!("scc {cmd} prints a different {dir} program to a 43-column pseudo terminal than to a pipe: {}", first_diff(&want, &got)),
+                            J::obj().with("kind", J::s("determinism-cli")).with("src", J::s(src)).with("origin", J::s(origin)).with("file", J::s(format!("stdout of scc {cmd} on a terminal"))),
+                        );
+                    }
+                }
+                _ => acc.count("cli_pseudo_terminal_unavailable"),
+            }
         }
         let key = format!("target_scc/{dir}/p.txt");
         let (Some(a), Ok(b)) = (snapshots[0].get(&key), std::fs::read(d.join(&key))) else { continue };
